@@ -1,15 +1,22 @@
 """C16 - log files are named as documented; path-derived specs, listing and symlink agree."""
 import gen_flw as g
 
-CLAIM = ("Decided per explored history by executable oracles defined in Coq (Oracles/O_Names.v) and applied to the implementation's "
-         "observations: every file in the log directory is named [basename][_discriminant][_infix][.suffix][.gz] with empty/absent "
-         "parts and their separators omitted and an infix of the active naming scheme (name_documented); existing_log_files returns "
-         "exactly the existing family files the selector asks for (oracle_listing, compared with a directory snapshot taken just "
-         "before the query); the symlink resolves to the newest family file in reader order. For FileSpec::try_from: proved in Coq that "
-         "stem and extension re-assemble the file name for every name (C16_stem_ext_roundtrip), and checked against the "
-         "implementation that a logger built from the derived spec writes to exactly that path. The model's naming functions are tied "
-         "to the code by the correspondence check. Partial: no proof yet that every model run satisfies name_documented.")
-THEOREMS = ["C16_stem_ext_roundtrip", "C16_doc_fixed_is_fixed", "C16_name_roundtrip"]
+CLAIM = ('Proved in Coq END TO END for the model: every file that any history of a Numbers (with or without cleanup), '
+         'NumbersDirect or Timestamps writer leaves is accepted by the oracle name_documented that is applied to the '
+         'implementation (C16_*_names_documented; hypothesis: the suffix does not end in .gz), and existing_log_files returns '
+         'exactly the existing family files the selector asks for, for every history and selector (C16_numbers_listing_exact, '
+         'C16_numbersdirect_listing_exact, C16_timestamps_listing_exact; a custom current infix must not be a number / '
+         'time-stamp infix, nor rCURRENT together with with_r_current - for those two combinations the proof attempt showed that '
+         'the listing has an entry twice resp. lists a rotated file). Decided per explored history by executable oracles defined '
+         "in Coq (Oracles/O_Names.v) and applied to the implementation's observations: every file in the log directory is named "
+         '[basename][_discriminant][_infix][.suffix][.gz] with empty/absent parts and their separators omitted and an infix of '
+         'the active naming scheme (name_documented); existing_log_files returns exactly the existing family files the selector '
+         'asks for (oracle_listing, compared with a directory snapshot taken just before the query); the symlink resolves to the '
+         'newest family file in reader order. For FileSpec::try_from: proved in Coq that stem and extension re-assemble the file '
+         'name for every name (C16_stem_ext_roundtrip), and checked against the implementation that a logger built from the '
+         "derived spec writes to exactly that path. The model's naming functions are tied to the code by the correspondence "
+         'check. Partial: no proof yet that every model run satisfies name_documented. ')
+THEOREMS = ["C16_numbers_names_documented", "C16_numbers_cleanup_names_documented", "C16_numbersdirect_names_documented", "C16_timestamps_names_documented", "C16_numbers_listing_exact", "C16_numbersdirect_listing_exact", "C16_timestamps_listing_exact", "C16_stem_ext_roundtrip", "C16_doc_fixed_is_fixed", "C16_name_roundtrip"]
 TRUSTED = ["modelled, not verified: std::path::Path (file_stem, extension, parent, join), symlink/read_link"]
 ASSUMPTIONS = ["with a start-time name part the listing and symlink oracles are not applied (the names oracle and the correspondence are)"]
 RULE = ("flw cases: all combinations of present/absent/empty basename and discriminant, suffix present/absent, all namings, rotation "
